@@ -55,6 +55,12 @@ package masswallet
 //@   modifies recInCurBlk, h.mempool, rollbacks(), gmap("iterkey")
 //@   expand db.View
 //@   dead returns 1
+// a transaction of the block being connected is visible, under its id, to the filtering of the later transactions of
+// that block (a spend chain inside one block); nothing is ever taken out of that index
+//@   ensures[C01] result2 == nil && blockMeta != nil ==> has(recInCurBlk, ghosts("txid", tx))
+//@   ensures result2 == nil && blockMeta != nil ==> recsWF(recInCurBlk)
+//@   ensures result0 ==> result1 != nil && fresh(result1)
+//@   ensures[C01] forall qk_ string :: old(has(recInCurBlk, qk_)) ==> has(recInCurBlk, qk_)
 // stepping stones for the lemma below (each source of prevTx yields a transaction without nil outputs)
 //@   at "if prevTx == nil { prevTx, err = h.walletMgr.chainFetcher.FetchTxBySha(..." assert prevTx == nil || outsWF(prevTx)
 //@   at "if prevTx == nil { fields := logging.LogFormat{..." assert prevTx == nil || outsWF(prevTx)
@@ -68,9 +74,12 @@ package masswallet
 // blocks connected earlier in the same transaction), never of a separate read-only view of the committed data
 //@   at "if !exist { continue }" assert[C01] exist == ghostb("creditFromTx", dbtx, strOf(txIn.PreviousOutPoint.Hash[:]))
 //@   loop#1 invariant recsWF(recInCurBlk)
+//@   loop#1 invariant (blockMeta != nil ==> has(recInCurBlk, ghosts("txid", tx))) && (forall qk_ string :: old(has(recInCurBlk, qk_)) ==> has(recInCurBlk, qk_))
+//@   loop#2 invariant (blockMeta != nil ==> has(recInCurBlk, ghosts("txid", tx))) && (forall qk_ string :: old(has(recInCurBlk, qk_)) ==> has(recInCurBlk, qk_))
 //@   loop#1 invariant cacheWF(cache)
 //@   loop#1 invariant rec != nil && fresh(rec) && sameSlice(rec.MsgTx.TxOut, tx.TxOut) && fresh(rec.RelevantTxIn) && fresh(rec.RelevantTxOut)
 //@   loop#2 invariant rec != nil && fresh(rec) && fresh(rec.RelevantTxOut)
+//@   loop#2 invariant recsWF(recInCurBlk)
 
 // boundary of the filter: chain database, pending-transaction store, keystore index, store update
 //@ func (*WalletManager).existsUnminedTx
@@ -192,11 +201,28 @@ package masswallet
 
 // ---- C01: a block is filtered only if it is the block the chain database holds at that height (stale tips answered
 // with ErrMaybeChainRevoked)
+// ... and its transactions are filtered in order against ONE index of the block's own transactions, so that a spend
+// chain inside the block is seen: when transaction i is filtered, transactions 0..i-1 are in the index under their ids
+// (lemma over filterTx's contract; every other callee is unknown code here, the chain-database lookup is assumed to
+// leave wallet objects alone)
 //@ func (*NtfnsHandler).filterBlock
 //@   props C01
 //@   nopanic off
 //@   modifies *
-//@   only nothing
+//@   only filterTx BlockHash TxLoc
+//@   dbonly FetchBlockLocByHeight
+//@   requires h != nil && wmWF(h.walletMgr) && h.mempool != nil && dbtx != nil && block != nil
+//@   requires forall qt_ int :: 0 <= qt_ && qt_ < len(block.Transactions) ==> txWF(block.Transactions[qt_])
+//@   at "isRelevant, rec, err := h.filterTx(..." assert txWF(block.Transactions[i])
+//@   at "isRelevant, rec, err := h.filterTx(..." assert recsWF(recInCurBlk)
+//@   loop#1 modifies recInCurBlk, h.mempool, rollbacks(), gmap("iterkey"), confirmedTxs
+//@   loop#1 invariant relevantTxs == nil || loopfresh(relevantTxs)
+//@   loop#1 invariant h != nil && h.mempool != nil
+//@   loop#1 invariant wmWF(h.walletMgr)
+//@   loop#1 invariant blockMeta != nil && recInCurBlk != nil
+//@   loop#1 invariant recsWF(recInCurBlk)
+//@   loop#1 invariant forall qt_ int :: 0 <= qt_ && qt_ < len(block.Transactions) ==> txWF(block.Transactions[qt_])
+//@   loop#1 invariant[C01] forall qt_ int :: 0 <= qt_ && qt_ < i ==> has(recInCurBlk, ghosts("txid", block.Transactions[qt_]))
 //@   at "txLocs, err := massutil.NewBlock(block).TxLoc()" assert[C01] bytesEq(blockMeta.Loc.Hash, 0, blockMeta.Hash, 0, 32)
 
 // ---- C15: formatting.  For every amount m in [0, MaxAmount] the result is the shortest plain decimal of m / 10^8:
